@@ -12,10 +12,23 @@ import (
 )
 
 const (
-	repoDir    = "/repo"
 	verifDir   = "/verif"
 	modulePath = "github.com/Comcast/sheens"
 )
+
+// repoDir: the tree under test. Always /repo for the registered commands; GOSYM_REPO lets tools/try_seed.sh
+// point a check at a scratch worktree carrying a seeded change (evidence and cex then go to GOSYM_OUT).
+var repoDir = envOr("GOSYM_REPO", "/repo")
+
+// outDir: where evidence/ and cex/ are written (default /verif).
+var outDir = envOr("GOSYM_OUT", verifDir)
+
+func envOr(k, d string) string {
+	if v := os.Getenv(k); v != "" {
+		return v
+	}
+	return d
+}
 
 // overlayFiles maps virtual paths under /repo to real harness files under /verif/harness.
 func overlayFiles() (map[string]string, error) {
@@ -63,6 +76,9 @@ func loadProgram(patterns []string) (*ssa.Program, []*packages.Package, error) {
 		if err != nil {
 			return nil, nil, err
 		}
+		overlay[dst] = b
+	}
+	for dst, b := range extraOverlay {
 		overlay[dst] = b
 	}
 	cfg := &packages.Config{
